@@ -2,6 +2,7 @@ package props
 
 import (
 	"fmt"
+	"strings"
 
 	"zogverif/internal/core"
 	"zogverif/internal/gen"
@@ -64,6 +65,14 @@ func (c14) RunCase(c *core.Ctx) {
 		}
 		prefill := gen.Prefill(c.R, n, false)
 		stray := c.R.Bool()
+		dashKey := ""
+		n.Walk(func(x *spec.Node) {
+			for _, f := range x.Fields {
+				if f.Tags["json"] == "-" {
+					dashKey = strings.ToLower(f.Key)
+				}
+			}
+		})
 		var base *run.Outcome
 		var baseIssues []string
 		// half of the records use ONE schema object for all front ends (a package-level schema serving requests, config and tests)
@@ -104,6 +113,20 @@ func (c14) RunCase(c *core.Ctx) {
 				return
 			}
 			ci := canonIssues(o)
+			if dashKey != "" {
+				// the one field whose source tags are "-": that key stands for its schema key, like the prefixed tags do
+				for i := range ci {
+					path, rest, _ := strings.Cut(ci[i], "|")
+					segs := strings.Split(path, ".")
+					for j := range segs {
+						if segs[j] == "-" || strings.HasPrefix(segs[j], "-[") {
+							segs[j] = dashKey + segs[j][1:]
+						}
+					}
+					ci[i] = strings.Join(segs, ".") + "|" + rest
+				}
+				sortStrings(ci)
+			}
 			if f == "map" {
 				base, baseIssues = o, ci
 				continue
